@@ -1,5 +1,5 @@
 """Which rules decide which property, and the runner groups that produce the rule results."""
-from . import rules_struct, rules_plan, rules_loop, rules_api, rules_mor, rules_rt, rules_cc, rules_x
+from . import rules_struct, rules_plan, rules_loop, rules_api, rules_mor, rules_rt, rules_cc, rules_x, rules_flat, rules_template
 from .mir import Facts
 
 # ---------------------------------------------------------------------------
@@ -19,6 +19,26 @@ def g_plan(ctx):
         mods = list(p.model.rule_mods.values())
         return [rules_plan.rule_plan(p.model, mods), rules_plan.rule_semi(p.model, mods)]
     return ctx.per_model(["T-PLAN", "T-SEMI"], f)
+
+
+def g_flat(ctx):
+    """T-FLAT: enumerated rules only (thorough tier); in the quick tier the rule has no instances."""
+    if ctx.tier != "thorough":
+        from .core import RuleResult
+        r = RuleResult("T-FLAT")
+        r.notes.append("T-FLAT runs in the thorough tier only")
+        return [r]
+
+    def f(p):
+        if p.set != "enum":
+            return []
+        side = p.job["src"][:-4] + ".json"
+        return [rules_flat.rule_flat(p.model, list(p.model.rule_mods.values()), side)]
+    return ctx.per_model(["T-FLAT"], f, sets=("enum",))
+
+
+def g_template(ctx):
+    return rules_template.rule_template_loop(ctx.art)
 
 
 def g_loop(ctx):
@@ -121,6 +141,8 @@ def g_typecheck(ctx):
 
 
 GROUPS = {
+    "template": g_template,
+    "flat": g_flat,
     "cc_digest": g_cc_digest,
     "cc_diag": g_cc_diag,
     "cc_det": g_cc_det,
@@ -138,13 +160,13 @@ GROUPS = {
     "loop": g_loop,
 }
 
-EMITTED_GROUPS = ("struct", "plan", "loop", "api", "mor", "x", "typecheck", "prune_use")
+EMITTED_GROUPS = ("struct", "plan", "loop", "api", "mor", "x", "typecheck", "prune_use", "flat")
 
 # rule id -> group
 RULE_GROUP = {
     "T-FAM": "struct", "T-INS": "struct", "T-MOVE": "struct", "T-DIRTY": "struct", "T-CANON": "struct", "T-DELTA": "struct",
     "T-FUNC": "struct", "T-DIAG": "struct",
-    "T-PLAN": "plan", "T-SEMI": "plan", "T-ENV": "plan",
+    "T-PLAN": "plan", "T-SEMI": "plan", "T-ENV": "plan", "T-FLAT": "flat",
     "T-LOOP": "loop", "T-PENDING": "loop",
     "T-MOR": "mor", "T-AGE": "mor", "T-PRUNE-USE": "mor",
     "M-DIGEST": "cc_digest", "M-PANIC": "cc_diag", "M-LINES": "cc_diag", "M-DET": "cc_det", "M-PAR": "cc_det", "M-DIRTAINT": "cc_det",
@@ -154,14 +176,22 @@ RULE_GROUP = {
     "T-API": "api", "T-ALLOC": "api", "T-ENUM": "api",
 }
 
+# rules decided by more than one group (emitted code of every program + the generator's template)
+EXTRA_GROUPS = {"T-LOOP": ["template"], "T-PENDING": ["template"]}
+
+
+def groups_of(rule):
+    return [RULE_GROUP[rule]] + EXTRA_GROUPS.get(rule, [])
+
+
 # Violations are attributed to rules by the prefix of their key (T-DIAG findings are produced inside
 # T-INS/T-MOVE/T-CANON but keyed T-DIAG:..).
 PROPERTIES = {
     "C01": {
-        "rules": ["T-PLAN", "T-SEMI", "T-LOOP", "T-DELTA", "T-DIRTY", "T-CANON", "T-INS", "T-MOVE", "T-DIAG", "T-FUNC", "T-AGE"],
+        "rules": ["T-PLAN", "T-SEMI", "T-LOOP", "T-DELTA", "T-DIRTY", "T-CANON", "T-INS", "T-MOVE", "T-DIAG", "T-FUNC", "T-AGE", "T-FLAT"],
         "level": "translation_validation",
     },
-    "C02": {"rules": ["T-PLAN", "T-DIAG", "T-LOOP", "T-API", "T-ALLOC"], "level": "translation_validation"},
+    "C02": {"rules": ["T-PLAN", "T-DIAG", "T-LOOP", "T-API", "T-ALLOC", "T-FLAT"], "level": "translation_validation"},
     "C03": {"rules": ["T-SEMI", "T-MOVE", "T-CANON", "T-LOOP", "T-INS", "T-DIAG", "T-AGE"], "level": "translation_validation"},
     "C04": {"rules": ["T-FAM", "T-INS", "T-MOVE", "T-CANON", "T-DIAG", "T-DIRTY", "T-API", "T-ENUM", "T-MOR"], "level": "translation_validation"},
     "C05": {"rules": ["T-API", "T-INS", "M-UF"], "level": "other"},
@@ -178,7 +208,7 @@ PROPERTIES = {
     "C15": {"rules": ["T-ALLOC", "T-ENUM", "T-DELTA"], "level": "other"},
     "C07": {"rules": ["T-LOOP", "T-PENDING"], "level": "other"},
     "C17": {"rules": ["T-MOR", "T-AGE", "T-LOOP"], "level": "translation_validation"},
-    "C16": {"rules": ["T-SEMI", "T-PLAN"], "level": "translation_validation"},
+    "C16": {"rules": ["T-SEMI", "T-PLAN", "T-FLAT"], "level": "translation_validation"},
 }
 
 # Floors: minimal number of rule instances (emitted-code rules: over the /verif/corpus set alone, which the framework
